@@ -60,9 +60,6 @@ def check_space(chk, drv, sp, stats, ndata):
         itp = SplineInterpolator1D(sp.basis)
         w = np.array(itp.get_quadrature_coefficients(), dtype=float)
     except Exception as e:  # noqa: BLE001
-        if sp.per and sp.nc == sp.p:
-            chk.count('skipped: periodic ncells == degree raises (C08 finding)')
-            return
         chk.fail('C09:raises', 'get_quadrature_coefficients raised %s: %s' % (type(e).__name__, e), case)
         return
     # the weights handed out belong to the caller: interpolating with the same interpolator afterwards (and asking for the weights
@@ -82,6 +79,18 @@ def check_space(chk, drv, sp, stats, ndata):
         chk.fail('C09:weights-aliased', 'the weight vector returned by get_quadrature_coefficients changes when the interpolator is used afterwards '
                  '(or differs between two calls)', case, expected=[float(x) for x in w_first], actual=[float(x) for x in held_after])
         return
+    # the caller may do what it likes with the vector it was given (scale it, normalise it in place)
+    w_mod = itp.get_quadrature_coefficients()
+    try:
+        w_mod *= -3.0
+        w_mod[:] += 7.0
+    except (ValueError, TypeError):
+        pass
+    again2 = np.array(itp.get_quadrature_coefficients(), dtype=float)
+    if not np.array_equal(again2, w):
+        chk.fail('C09:weights-aliased', 'get_quadrature_coefficients returns different weights after the vector returned by an earlier call was '
+                 'modified in place by its owner', case, expected=[float(x) for x in w], actual=[float(x) for x in again2])
+        return
     Ir = np.array(sp.basis.integrals, dtype=float)
     xs = np.asarray(sp.basis.greville, dtype=float)
     if not H.all_finite(w, Ir, xs):
@@ -89,7 +98,7 @@ def check_space(chk, drv, sp, stats, ndata):
         return
     n, p = sp.nb, sp.p
     L = sp.b - sp.a
-    c08_affected = sp.per and sp.nc == sp.p       # collocation matrix of the unpatched code is wrong there (C08 finding)
+    c08_affected = False     # (periodic ncells == degree was excluded here until the collocation matrix was repaired, fix b4f719e)
     failed = set()
 
     def fail(sig, what, expected=None, actual=None, extra=None):
@@ -256,6 +265,14 @@ def run(chk):
             a = rng.choice([0.1, 0.1, 0.3, 1.1, rng.uniform(-10, 10), rng.uniform(0, 2)])
             L_ = rng.choice([1.0, 14.4, rng.uniform(0.5, 20.0)])
             todo.append(H.Sp(3, k % 3 == 2, 'cu', np.linspace(a, a + L_, rng.randint(4, 30) + 1)))
+        # knot vectors of whole numbers handed over as integer arrays (hand-built with np.arange): the same spaces as with float knots
+        for k in range(chk.n(12, 60)):
+            pdeg = 3 if k % 2 == 0 else rng.randint(1, 5)
+            per = k % 4 == 1
+            a0 = rng.randint(-3, 3)
+            ncell = rng.randint(max(pdeg + 1, 4) if per else 1, 9)
+            step = rng.choice([1, 1, 2, 3])
+            todo.append(H.Sp(pdeg, per, 'cu' if pdeg == 3 and k % 2 == 0 else 'uniform', np.arange(a0, a0 + step * ncell + 1, step), int_knots=True))
         todo += [H.gen_space(rng) for _ in range(chk.n(180, 3000))]
         for sp in todo:
             check_space(chk, drv, sp, stats, chk.n(2, 4))
